@@ -209,10 +209,33 @@ def check(ck):
     okpn = any("inspect.signature(memento_fn.fn).parameters.keys()" in A.norm(s.value) for s in pn)
     ck.ob(R3, fr.key(None, "parameter-names"), okpn, "parameter names come from the function's signature, in order" if okpn else
           "parameter_names are not list(inspect.signature(memento_fn.fn).parameters.keys())", fr.where())
+    # the canonical writer and the encoder never re-bind (coerce) the value they are given
+    for f_ in (nj, enc):
+        prm = f_.fi.params[0]
+        rebinds = [s_ for s_ in f_.stmts((ast.Assign, ast.AugAssign)) if any(isinstance(t, ast.Name) and t.id == prm for t in (s_.targets if isinstance(s_, ast.Assign) else [s_.target]))]
+        ck.ob(R2, f_.key(None, "no-coercion"), not rebinds, "the value is written as given" if not rebinds else
+              "`%s` coerces the value before it is written: values of different type (2 and 2.0) get the same canonical text and share a memo key"
+              % A.short(rebinds[0], 60), f_.where(rebinds[0] if rebinds else None))
     pa = FA(ck, "base.MementoFunctionBase.partial")
+    # containers that partial() mutates are fresh copies, never aliases of the parent reference's state
+    for c in pa.calls():
+        if A.call_attr(c) in ("update", "append", "extend", "setdefault", "insert") and isinstance(A.call_recv(c), ast.Name):
+            nm = A.call_recv(c).id
+            for i in pa.nodes(c):
+                for d in pa.df.reaching(i, nm):
+                    v = d.value
+                    fresh = isinstance(v, (ast.Dict, ast.List, ast.DictComp, ast.ListComp)) or \
+                        (isinstance(v, ast.Call) and A.call_attr(v) in ("dict", "list", "copy", "deepcopy")) or \
+                        (isinstance(v, ast.IfExp) and all(isinstance(x, (ast.Dict, ast.List)) or (isinstance(x, ast.Call) and A.call_attr(x) in ("dict", "list", "copy")) for x in (v.body, v.orelse)))
+                    ck.ob(R3, pa.key(c, "mutates-fresh-copy:" + nm), fresh, "%s is a fresh copy before it is updated" % nm if fresh else
+                          "`%s` updates `%s`, which can be the parent reference's own dict (`%s`): deriving a second partial silently changes the key "
+                          "and the bound arguments of the first" % (A.short(c, 40), nm, A.short(v, 50)), pa.where(c))
     txtp = A.norm(pa.node)
     okpa = "new_partial_args += partial_args" in txtp and "new_partial_kwargs.update(partial_kwargs)" in txtp and \
         "clone_with(partial_args=new_partial_args, partial_kwargs=new_partial_kwargs)" in txtp and "fn_reference.partial_args or ()" in txtp
     ck.ob(R3, pa.key(None, "accumulates"), okpa, "partial() appends positional and updates keyword partials on a clone" if okpa else
           "partial() no longer accumulates (existing partials + new ones) into the clone", pa.where())
     check_typed_identity(ck, "C04.R4", ("reference", "base"))
+    from .c16 import sibling_reference_sites
+    ck.rule("C04.R5", "every keyed reference construction in base.py (call, call_batch, forget, memento, metadata) passes the function's context args, so all entry points compute the same key", 6)
+    sibling_reference_sites(ck, "C04.R5")
